@@ -91,7 +91,7 @@ def case_strategy(draw, tier='quick'):
     return {'pel': pel, 'compnames': draw(compnames_for(pel))}
 
 
-@PROP.given('fields', lambda tier: case_strategy(tier), quick=1500, thorough=60000, shards_quick=8)
+@PROP.given('fields', lambda tier: case_strategy(tier), quick=4000, thorough=60000, shards_quick=8)
 def fields(case, note):
     pel = case['pel']
     check_pel(pel, case['compnames'], note)
